@@ -6,7 +6,7 @@
 #define BAGMAX 6
 #endif
 #ifndef TASKMAX
-#define TASKMAX 8
+#define TASKMAX 8      /* <= 16 (typed task storage of the wrappers) */
 #endif
 static void* bag[BAGMAX]; static unsigned bag_n;
 static unsigned n_alloc[2], n_free; static unsigned n_live[2];
